@@ -23,7 +23,20 @@ def seeds():
     for d in sorted(glob.glob(os.path.join(ROOT, "seeded", "*", "meta.json"))):
         m = json.load(open(d))
         rows.append("| %s | %s | %s | %s | %s |" % (m["seed_id"], m.get("property"), (m.get("summary") or "")[:260].replace("|", "\\|").replace("\n", " "),
-                                                  (m.get("needs_to_manifest") or "")[:200].replace("|", "\\|").replace("\n", " "), ", ".join(m.get("checks_run", []))))
+                                                  (m.get("needs_to_manifest") or "")[:200].replace("|", "\\|").replace("\n", " "), ", ".join(m.get("checks_run", [])) +
+                                                  ((" ; after strengthening: " + ", ".join(m["after_strengthening"]["checks"])) if m.get("after_strengthening") else "")))
+    return "\n".join(rows)
+
+def harmless():
+    rows = ["| id | behaviour-preserving change | repo tests | checks run -> result |", "|---|---|---|---|"]
+    for d in sorted(glob.glob(os.path.join(ROOT, "harmless", "*", "meta.json"))):
+        m = json.load(open(d))
+        cr = m.get("checks_run", [])
+        quiet = sum(1 for c in cr if c.endswith(":quiet"))
+        loud = [c for c in cr if not c.endswith(":quiet")]
+        rows.append("| %s | %s | %s | %d checks quiet%s |" % (m.get("id") or os.path.basename(os.path.dirname(d)), (m.get("summary") or "")[:300].replace("|", "\\|").replace("\n", " "),
+                                                         "pass" if "all tests passed" in (m.get("repo_tests_with_change") or "") else (m.get("repo_tests_with_change") or "?"),
+                                                         quiet, ("; ALARM: " + ", ".join(loud)) if loud else ""))
     return "\n".join(rows)
 
 def status():
@@ -37,7 +50,7 @@ def main():
     p = os.path.join(ROOT, "DESIGN.md")
     s = open(p).read()
     fx, kf = fixes()
-    for name, body in (("FIXES", fx), ("KNOWN", kf), ("SEEDS", seeds()), ("STATUS", status())):
+    for name, body in (("FIXES", fx), ("KNOWN", kf), ("SEEDS", seeds()), ("HARMLESS", harmless()), ("STATUS", status())):
         a, b = "<!-- BEGIN %s -->" % name, "<!-- END %s -->" % name
         if a in s and b in s:
             s = s[:s.index(a) + len(a)] + "\n" + body + "\n" + s[s.index(b):]
